@@ -506,6 +506,58 @@ theorem inv_respond (s : Sys) (m : Signed RespBody) (h : Inv s)
         simp only [hin, if_false, e1, e2]
         omega
 
+/-- An accepted response, whatever number of children and requests it answers at once: every
+entry answers a request that was waiting (and had no response waiting), no child and key occurs
+twice, and afterwards each entry is the waiting response of its child and key – the signer's
+value – while the answered requests are gone and everything else is as before. -/
+theorem respond_batch (s : Sys) (m : Signed RespBody) (evs : List Ev) (h : Inv s)
+    (ha : admissible s (.respond m) = true)
+    (hp : process s.proxy (.processSignerResponse m) = .ok evs) :
+    (keysOf m.clear.entries).Nodup ∧
+    (∀ ck ∈ keysOf m.clear.entries, ahas s.proxy.openReq ck = true ∧
+        ahas s.proxy.openResp ck = false ∧ s.proxy.known ck.1 = true) ∧
+    (∀ e ∈ m.clear.entries, aget (step s (.respond m)).proxy.openResp e.1 = some e.2) ∧
+    (∀ ck, ahas (step s (.respond m)).proxy.openReq ck = true ↔
+        ahas s.proxy.openReq ck = true ∧ ck ∉ keysOf m.clear.entries) ∧
+    (∀ ck, ck ∉ keysOf m.clear.entries →
+        aget (step s (.respond m)).proxy.openResp ck = aget s.proxy.openResp ck) := by
+  obtain ⟨n, i, hn, hmn, hsig, hv, hev⟩ := processSignerResponse_ok _ _ _ hp
+  subst hev
+  obtain ⟨hms, _, hbc⟩ := (validFor_iff m i.idKey).mp hv
+  obtain ⟨t, ht, hpk⟩ := h.assoc i hsig
+  have hres : (m.signer, m.body) ∈ s.resps := by
+    simp only [admissible, Bool.or_eq_true, Bool.not_eq_true', List.contains_iff_mem] at ha
+    rcases ha with ha | ha
+    · rw [hms] at ha; simp [ahas, ht] at ha
+    · exact ha
+  rw [hms] at hres
+  obtain ⟨b, hb, hbn, hbk⟩ := h.link i.idKey t ht hpk m.body hres
+  rw [hbc] at hbn hbk
+  obtain ⟨hnd, hopen⟩ := h.reqsOpen n hn b hb (hbn.trans hmn)
+  rw [← hbk] at hnd hopen
+  have hallk : ∀ e ∈ m.clear.entries, s.proxy.known e.1.1 = true := by
+    intro e he
+    exact h.reqKnown e.1 (hopen e.1 (List.mem_map_of_mem he))
+  have hfilt : m.clear.entries.filter (fun e => ahas s.proxy.children e.1.1) = m.clear.entries :=
+    List.filter_eq_self.mpr hallk
+  have hact : actedOn s.proxy.children m.clear.entries = keysOf m.clear.entries := by
+    unfold actedOn; rw [hfilt]
+  have hfo := fold_openReq s.proxy.children m.clear.entries s.proxy rfl
+  rw [hact] at hfo
+  refine ⟨hnd, ?_, ?_, ?_, ?_⟩
+  · intro ck hck
+    have ho := hopen ck hck
+    exact ⟨ho, h.disj ck ho, h.reqKnown ck ho⟩
+  · intro e he
+    simp only [step, hp, applyAll, List.foldl, apply]
+    exact fold_openResp_get m.clear.entries s.proxy hnd hallk e he
+  · intro ck
+    simp only [step, hp, applyAll, List.foldl, apply]
+    exact hfo ck
+  · intro ck hck
+    simp only [step, hp, applyAll, List.foldl, apply]
+    exact fold_openResp_get_other m.clear.entries s.proxy ck hck
+
 /-- Every admissible step keeps the invariant. -/
 theorem inv_step (s : Sys) (o : Op) (h : Inv s) (ha : admissible s o = true) : Inv (step s o) := by
   cases o with
